@@ -1,5 +1,6 @@
 import CalVerif.Model.Geometry
 import CalVerif.Spec.Geometry
+import CalVerif.Model.Biff
 /-! Helper lemmas for `Props/C17.lean`. -/
 namespace Geometry
 
@@ -656,25 +657,220 @@ theorem readTables_decl (m : Mode) (parts : List (Bytes × List Ev)) (sheet : By
     have hok' := hok
     obtain ⟨_, hv, _, _, _, _, _, hh, htot⟩ := hok
     have hdims : tableDims m (renderRef2 p.2.rect) p.2.h p.2.t false = .ok p.2.dataRect := by
-      unfold tableDims TableDecl.dataRect
+      unfold tableDims
       rw [getDimension_renderRef2 m _ hv]
       obtain ⟨_, _, h3, _⟩ := hv
       have hh1 : p.2.h ≤ 1 := by
         unfold TableDecl.h; cases hc : p.2.hdr with
         | none => simp
         | some x => simpa using hh x hc
-      have ht1 : p.2.t ≤ p.2.rect.er := by
+      have ht1 : p.2.t ≤ 1 := by
         unfold TableDecl.t; cases hc : p.2.tot with
         | none => simp
-        | some x => simpa using (htot x hc).2
-      unfold tableDimsOf
-      have c1 : ¬ (p.2.h ≠ 0 ∧ p.2.rect.sr + p.2.h ≥ U32) := by simp only [U32]; omega
-      have c2 : ¬ (p.2.t ≠ 0 ∧ p.2.rect.er < p.2.t) := by omega
-      simp only [c1, c2, if_false, Bool.false_eq_true, false_and]
+        | some x => simpa using (htot x hc).1
       congr 1
-      have e1 : (if p.2.h ≠ 0 then p.2.rect.sr + p.2.h else p.2.rect.sr) = p.2.rect.sr + p.2.h := by split <;> omega
-      have e2 : (if p.2.t ≠ 0 then p.2.rect.er - p.2.t else p.2.rect.er) = p.2.rect.er - p.2.t := by split <;> omega
-      rw [e1, e2]
+      unfold tableDimsOf TableDecl.dataRect emptyRect
+      simp only [Bool.false_eq_true, if_false, Nat.add_zero, Nat.sub_zero]
+      by_cases hrow : p.2.rect.sr + p.2.h + p.2.t ≤ p.2.rect.er
+      · rw [if_pos ⟨by simp only [U32]; omega, by omega, by omega⟩, if_pos hrow]
+      · rw [if_neg (by omega), if_neg hrow]
     simp only [List.map_cons, readTables, hf, readTablePart_decl p.2 hok', hdims, ih]
+
+end Geometry
+
+namespace Geometry
+
+/-! ### `get_dimension` never unwinds in the saturating variant (the code of the tree since cc36676 / a2153f7) -/
+
+/-- returned normally: `Ok` or `Err`, no panic, no fuel exhaustion -/
+def Fine {α : Type} (r : Res α) : Prop := (∃ a, r = .ok a) ∨ (∃ e, r = .err e)
+
+theorem addU_sat (m : Mode) (hm : m.satArith = true) (a b : Nat) : ∃ v, addU m a b = .ok v := by
+  unfold addU
+  by_cases h : a + b < U32
+  · rw [if_pos h]; exact ⟨_, rfl⟩
+  · rw [if_neg h, if_pos hm]; exact ⟨_, rfl⟩
+
+theorem mulU_sat (m : Mode) (hm : m.satArith = true) (a b : Nat) : ∃ v, mulU m a b = .ok v := by
+  unfold mulU
+  by_cases h : a * b < U32
+  · rw [if_pos h]; exact ⟨_, rfl⟩
+  · rw [if_neg h, if_pos hm]; exact ⟨_, rfl⟩
+
+theorem rcLetter_fine (m : Mode) (hm : m.satArith = true) (s : RC) (k : Nat) : Fine (rcLetter m s k) := by
+  unfold rcLetter
+  split
+  · exact .inr ⟨_, rfl⟩
+  · obtain ⟨t, ht⟩ := mulU_sat m hm (k + 1) (if s.readrow = true then 1 else s.pow)
+    obtain ⟨c, hc⟩ := addU_sat m hm s.col t
+    obtain ⟨p, hp⟩ := mulU_sat m hm (if s.readrow = true then 1 else s.pow) 26
+    simp only [ht, hc, hp]
+    exact .inl ⟨_, rfl⟩
+
+theorem rcDigit_fine (m : Mode) (hm : m.satArith = true) (s : RC) (d : Nat) : Fine (rcDigit m s d) := by
+  unfold rcDigit
+  split
+  · exact .inr ⟨_, rfl⟩
+  · obtain ⟨t, ht⟩ := mulU_sat m hm d s.pow
+    obtain ⟨c, hc⟩ := addU_sat m hm s.row t
+    obtain ⟨p, hp⟩ := mulU_sat m hm s.pow 10
+    simp only [ht, hc, hp]
+    exact .inl ⟨_, rfl⟩
+
+theorem rcStep_fine (m : Mode) (hm : m.satArith = true) (s : RC) (c : UInt8) : Fine (rcStep m s c) := by
+  unfold rcStep
+  split
+  · exact rcDigit_fine m hm s _
+  · split
+    · exact rcLetter_fine m hm s _
+    · split
+      · exact rcLetter_fine m hm s _
+      · exact .inr ⟨_, rfl⟩
+
+theorem rcFold_fine (m : Mode) (hm : m.satArith = true) : ∀ (l : Bytes) (s : RC), Fine (rcFold m l s)
+  | [], s => .inl ⟨s, rfl⟩
+  | c :: cs, s => by
+    unfold rcFold
+    rcases rcStep_fine m hm s c with ⟨s', h⟩ | ⟨e, h⟩
+    · rw [h]; exact rcFold_fine m hm cs s'
+    · rw [h]; exact .inr ⟨e, rfl⟩
+
+theorem getRowAndOptionalColumn_fine (m : Mode) (hm : m.satArith = true) (b : Bytes) :
+    Fine (getRowAndOptionalColumn m b) := by
+  unfold getRowAndOptionalColumn
+  rcases rcFold_fine m hm b.reverse ⟨0, 0, 1, true⟩ with ⟨s, h⟩ | ⟨e, h⟩
+  · rw [h]
+    simp only
+    split
+    · exact .inr ⟨_, rfl⟩
+    · exact .inl ⟨_, rfl⟩
+  · rw [h]; exact .inr ⟨e, rfl⟩
+
+theorem getRowColumn_fine (m : Mode) (hm : m.satArith = true) (b : Bytes) : Fine (getRowColumn m b) := by
+  unfold getRowColumn
+  rcases getRowAndOptionalColumn_fine m hm b with ⟨⟨r, c⟩, h⟩ | ⟨e, h⟩
+  · rw [h]
+    cases c with
+    | none => exact .inr ⟨_, rfl⟩
+    | some c => exact .inl ⟨_, rfl⟩
+  · rw [h]; exact .inr ⟨e, rfl⟩
+
+theorem parseParts_fine (m : Mode) (hm : m.satArith = true) : ∀ (l : List Bytes), Fine (parseParts m l)
+  | [] => .inl ⟨[], rfl⟩
+  | p :: ps => by
+    unfold parseParts
+    rcases getRowColumn_fine m hm p with ⟨x, h⟩ | ⟨e, h⟩
+    · rw [h]
+      rcases parseParts_fine m hm ps with ⟨xs, h2⟩ | ⟨e, h2⟩
+      · rw [h2]; exact .inl ⟨_, rfl⟩
+      · rw [h2]; exact .inr ⟨e, rfl⟩
+    · rw [h]; exact .inr ⟨e, rfl⟩
+
+theorem getDimension_fine (m : Mode) (hm : m.satArith = true) (hd : m.satDim = true) (b : Bytes) :
+    Fine (getDimension m b) := by
+  unfold getDimension
+  rcases parseParts_fine m hm (splitColon b) with ⟨xs, h⟩ | ⟨e, h⟩
+  · rw [h]
+    match xs with
+    | [] => exact .inr ⟨_, rfl⟩
+    | [a] => exact .inl ⟨_, rfl⟩
+    | [a, c] =>
+      simp only [hd, not_true_eq_false, false_and, if_false]
+      exact .inl ⟨_, rfl⟩
+    | _ :: _ :: _ :: _ => exact .inr ⟨_, rfl⟩
+  · rw [h]; exact .inr ⟨e, rfl⟩
+
+/-! ### the table data window -/
+
+theorem tableData_empty {α : Type} [Inhabited α] (rng : Range.Rng α) (d : Rect) (h : d.sr > d.er ∨ d.sc > d.ec) :
+    tableData rng d = .ok Range.empty := by
+  unfold tableData; rw [if_pos h]
+
+theorem tableData_range {α : Type} [Inhabited α] (rng : Range.Rng α) (d : Rect) (h : d.sr ≤ d.er ∧ d.sc ≤ d.ec) :
+    tableData rng d = Range.range rng d.sr d.sc d.er d.ec := by
+  unfold tableData; rw [if_neg (by omega)]
+
+/-- the arithmetic of `read_table_metadata` when a data row is left -/
+theorem tableDimsOf_data (d : Rect) (h t : Nat) (hroom : d.sr + h + t ≤ d.er) (hbig : d.sr + h < U32) :
+    tableDimsOf d h t false = ⟨d.sr + h, d.sc, d.er - t, d.ec⟩ := by
+  unfold tableDimsOf
+  simp only [Bool.false_eq_true, if_false, Nat.add_zero, Nat.sub_zero]
+  rw [if_pos ⟨hbig, by omega, by omega⟩]
+
+/-! ### lookups over the loaded table list -/
+
+/-- `get_table_meta` finds the first entry with the name; `table_names` lists the names in order -/
+theorem table_lookup (before after : List TableEntry) (t : TableEntry)
+    (huniq : ∀ x ∈ before, x.name ≠ t.name) :
+    getTableMeta (before ++ t :: after) t.name = .ok t ∧
+    tableNames (before ++ t :: after) = before.map (·.name) ++ t.name :: after.map (·.name) := by
+  constructor
+  · unfold getTableMeta
+    rw [List.find?_append]
+    have : before.find? (fun x => decide (x.name = t.name)) = none := by
+      rw [List.find?_eq_none]; intro x hx; simpa using huniq x hx
+    rw [this]
+    simp
+  · simp [tableNames]
+
+/-! ### the two models of `parse_merge_cells` agree -/
+
+theorem readU16At_eq_u16At (r : Bytes) (off : Nat) (h : off + 2 ≤ r.length) :
+    readU16At r off = .ok (BiffCells.u16At r off) := by
+  unfold readU16At BiffCells.u16At Biff.u16
+  have hl : (r.drop off).length = r.length - off := List.length_drop ..
+  match hd : r.drop off with
+  | [] => rw [hd] at hl; simp at hl; omega
+  | [_] => rw [hd] at hl; simp at hl; omega
+  | a :: b :: rest => simp
+
+/-- `BiffCells.parseMergeCells` (C02's model of the same Rust function, which keeps only the outcome class:
+    the cell reader does not use the regions) is the projection of `Geometry.parseMergeCells` -/
+theorem parseMergeCells_eq (r : Bytes) :
+    (match parseMergeCells r with
+     | .ok _ => .ok ()
+     | .err e => .err e
+     | .panic s => .panic s
+     | .outOfFuel => .outOfFuel : Res Unit) = BiffCells.parseMergeCells r := by
+  unfold parseMergeCells BiffCells.parseMergeCells
+  by_cases h2 : r.length < 2
+  · simp only [h2, if_true]
+  · simp only [h2, if_false]
+    rw [readU16At_eq_u16At r 0 (by omega)]
+    simp only
+    by_cases hl : r.length < 2 + 8 * BiffCells.u16At r 0
+    · simp only [hl, if_true]
+    · simp only [hl, if_false]
+      obtain ⟨ds, hds⟩ := mcLoop_ok r (BiffCells.u16At r 0) 0 (by omega)
+      rw [hds]
+
+end Geometry
+
+namespace Geometry
+
+/-! ### a witness for the non-vacuity examples of `Props/C17.lean` -/
+
+/-- a table declaration meeting `TableDecl.Ok`: prefix-less, `id`/`name` attributes before `displayName`,
+    an `autoFilter` child with its own `ref`, no header row, one totals row, two columns -/
+def exTable : TableDecl :=
+  { name := [84], rect := ⟨1, 1, 4, 2⟩, hdr := some 0, tot := some 1, cols := [[97], [82, 38, 68]],
+    extra := [(['i', 'd'], [49]), (nName, [84])], colExtra := [(['i', 'd'], [49])],
+    inner := [.start ['a', 'u', 't', 'o', 'F', 'i', 'l', 't', 'e', 'r'] [(nRef, [66, 50, 58, 67, 52])],
+              .end_ ['a', 'u', 't', 'o', 'F', 'i', 'l', 't', 'e', 'r']],
+    tail := [.text [10]] }
+
+theorem exTable_ok : exTable.Ok := by
+  refine ⟨by decide, by decide, by decide, by decide, ?_, ?_, ?_, ?_, ?_⟩
+  · intro e he
+    simp only [exTable, List.mem_cons, List.not_mem_nil, or_false] at he
+    rcases he with rfl | rfl
+    · exact ⟨by decide, by decide⟩
+    · show localName _ ≠ nTable; decide
+  · intro e he; simp [exTable] at he
+  · intro e he
+    simp only [exTable, List.mem_cons, List.not_mem_nil, or_false] at he
+    subst he; trivial
+  · intro h hh; simp only [exTable, Option.some.injEq] at hh; omega
+  · intro n hn; simp only [exTable, Option.some.injEq] at hn; subst hn; exact ⟨by omega, by decide⟩
 
 end Geometry
